@@ -61,5 +61,11 @@ def run(ctx):
     # depends on C06's rule
     from ..rules_ast import persistent_state_rule
     ctx.guard(persistent_state_rule, ctx, "C05.own-pattern")
+    # "fails with RuntimeError exactly when no candidate accepts": a candidate that rejects a record must answer False,
+    # i.e. whatever its _match raises is an InvalidSequence (what is_valid catches)
+    from ..rules_misc import k21_match_overrides
+    ctx.guard(k21_match_overrides, ctx, "C05")
+    from ..rules_ast import raise_inventory
+    ctx.guard(raise_inventory, ctx, "C05.rejection")
     from ..rules_misc import helper_rules
     ctx.guard(helper_rules, ctx, "C05.helpers")
